@@ -587,7 +587,13 @@ func (t *Table) checkSearchExpressions(input QueryInput) {
 
 func (t *Table) interpreterMatch(input interpreter.MatchInput) bool {
 	if t.UseNativeInterpreter {
-		matched, err := t.NativeInterpreter.Match(input)
+		// a registered matcher is code of the caller: it is handed copies, what it does to its
+		// arguments (or keeps of them) never reaches the stored item
+		native := input
+		native.Item = deepCopyItem(input.Item)
+		native.Attributes = deepCopyItem(input.Attributes)
+
+		matched, err := t.NativeInterpreter.Match(native)
 		if err == nil {
 			return matched
 		}
@@ -841,6 +847,11 @@ func (t *Table) Update(input *types.UpdateItemInput) (map[string]*types.Item, er
 	})
 	if err != nil {
 		return nil, err
+	}
+
+	if t.UseNativeInterpreter {
+		// what is stored shares nothing with what the registered updater was handed (and may have kept)
+		item = deepCopyItem(item)
 	}
 
 	// the updated item still needs its key attributes, with the declared types
